@@ -1,5 +1,6 @@
 """C24 — relevance pruning is unobservable in results."""
 import copy
+import json
 import random
 import warnings
 from fractions import Fraction
@@ -199,9 +200,11 @@ class C24(Property):
 
     def _tol(self, case):
         cfg = case['cfg']
+        md, _ = self._md(case)
+        cond = gm.system_cond(md, ('c24', case['gen_seed'], json.dumps(case['opts'], sort_keys=True)))
         if cfg['linear'] in ('krylov', 'lbgs') or cfg['sub_linear'] or cfg['nonlinear']:
-            return 1e-6
-        return RTOL
+            return max(1e-6, 1e-14 * cond)
+        return max(RTOL, 1e-14 * cond)
 
     @staticmethod
     def _close(a, b, tol):
